@@ -33,8 +33,10 @@ TRUSTED = ["Lean 4.33 kernel; axioms ⊆ {propext, Classical.choice, Quot.sound}
            "caller obligations of the API documentation are guards of the model (FreeObl/SetObl: helper removed from per-thread use, removed from the per-CPU array and a grace period since, not freed twice, not being re-published concurrently; urcu_call_rcu_exit runs as a library destructor)",
            "liveness is proved as 'a sleeping helper with work always has a non-stuck waker with a strictly decreasing own-step measure; a helper is never stuck outside gp/run/paused/asleep'; 'eventually' additionally needs a fair scheduler, terminating callbacks, ending read-side sections (C03_full unproved)",
            "tie: Driver/CallRcu.lean event-level transliteration of urcu-call-rcu-impl.h (L1) replaying labels of Model.lean/Barrier.lean (L2) on the explored schedules only; L1 ⊑ L2 is not a theorem; synchronize_rcu internals are skipped (C01/C02) and replayed as GpSpec steps whose guard is checked against the sections in the trace",
-           "flavors compiled: memb (with and without sys_membarrier) and mb; qsbr and bp include the same urcu-call-rcu-impl.h text but are not run by this scenario; fork handlers (PAUSE) belong to C16"]
-CONFIGS = [("memb", 1, "memb+sys_membarrier"), ("memb", 0, "memb fallback (mb)"), ("mb", 0, "mb flavor")]
+           "flavors run: memb (with and without sys_membarrier), mb, qsbr (src/urcu-qsbr.c: workers registered and online, quiescent states between operations, offline around blocking teardown calls; the helper's register / thread_offline / thread_online / unregister and rcu_barrier's was_online idiom are matched event by event and mapped to the model's section steps: an online thread = an open section since its last quiescent state, Cfg.qsbr), bp (src/urcu-bp.c: lazy registration with signals blocked, key-destructor unregistration; with and without sys_membarrier); fork handlers (PAUSE) belong to C16",
+           "qsbr caller obligations (documented for the flavor, guards of the model through nest = 0): a thread is offline while it blocks in call_rcu_data_free / free_all_cpu_call_rcu_data / create_all_cpu_call_rcu_data; rcu_barrier() inside a read-side section cannot be detected in qsbr (rcu_read_lock is a no-op) and is not exercised there"]
+CONFIGS = [("memb", 1, "memb+sys_membarrier"), ("memb", 0, "memb fallback (mb)"), ("mb", 0, "mb flavor"),
+           ("qsbr", 0, "qsbr flavor"), ("bp", 1, "bp+sys_membarrier"), ("bp", 0, "bp fallback (mb)")]
 DRV = os.path.join(vlib.LEAN, ".lake", "build", "bin", "drv_callrcu")
 OWN = {"once", "head", "gp", "uaf", "DEADLOCK", "BUDGET", "SELFLOCK", "BADUNLOCK"}
 FOREIGN = {"barrier"}          # oracle kinds owned by C04 only
@@ -47,16 +49,28 @@ REQUIRED = ["call_rcu", "callback_invoked", "select_default", "select_per_thread
             "helper_exit", "helper_freed", "set_cpu_publish", "set_cpu_unpublish", "set_cpu_EEXIST", "set_cpu_EINVAL",
             "create_all_slot_occupied", "free_all_helpers", "exit_default_torn_down", "percpu_array_allocated", "wfcq_busy_relax",
             "barrier_complete", "barrier_marker_enqueued", "barrier_futex_SLEEP", "barrier_wake_sleeper", "barrier_refused_in_cs",
-            "barrier_no_helper", "barrier_marker_not_last", "completion_freed_by_caller", "completion_freed_by_marker"]
+            "barrier_no_helper", "barrier_marker_not_last", "completion_freed_by_caller", "completion_freed_by_marker",
+            # flavor-specific lines of urcu-call-rcu-impl.h (qsbr: offline/online of helpers and barrier callers; bp: lazy registration)
+            "helper_sleeps_offline", "barrier_caller_was_online", "barrier_caller_was_offline", "sync_caller_was_online",
+            "qs_announced", "qs_already_current", "qsbr_wake_up_gp", "user_offline", "bp_registered", "bp_unregistered_at_exit"]
+
+
+def binname(flavor):
+    """scenario binary of this flavor for the tree under test: keyed by the tree (VERIF_REPO), so that a concurrent check
+    of another tree (seeded-change validation) does not overwrite the binaries this one is running"""
+    import hashlib
+    return "callrcu_%s_%s" % (flavor, hashlib.sha1(os.path.realpath(vlib.REPO).encode()).hexdigest()[:8])
 
 
 def build():
     rt = os.path.join(vlib.HARN, "rt")
     srcs = [os.path.join(vlib.HARN, "scen", "callrcu.c"), os.path.join(rt, "vrt.c"), os.path.join(rt, "vrt_compat_futex.c")] + vlib.rsrc("compat_arch.c")
-    for fl, out in (("RCU_MEMBARRIER", "callrcu_memb"), ("RCU_MB", "callrcu_mb")):
-        ok, log = vlib.cc(out, srcs, ["-w", "-D" + fl])
+    for fl, flavor in (("RCU_MEMBARRIER", "memb"), ("RCU_MB", "mb"), ("CALLRCU_QSBR", "qsbr"), ("CALLRCU_BP", "bp")):
+        tmp = "%s.tmp%d" % (binname(flavor), os.getpid())
+        ok, log = vlib.cc(tmp, srcs, ["-w", "-D" + fl])
         if not ok:
             return False, log
+        os.replace(os.path.join(vlib.BUILD, tmp), os.path.join(vlib.BUILD, binname(flavor)))    # atomic: running copies keep theirs
     return True, ""
 
 
@@ -68,7 +82,7 @@ def is_barrier_divergence(r):
 
 def one(flavor, memb, seed, extra=()):
     """returns dict(verdict=ok|diverge|oracle|crash, ...)"""
-    args = [os.path.join(vlib.BUILD, "callrcu_" + flavor), "--seed", str(seed)] + [str(x) for x in extra]
+    args = [os.path.join(vlib.BUILD, binname(flavor)), "--seed", str(seed)] + [str(x) for x in extra]
     env = {"VRT_MEMBARRIER": str(memb)}
     rc, out, err = vlib.sh2(args, timeout=120, env=env)
     res = {"cmd": args, "env": env, "rc": rc}
@@ -167,7 +181,7 @@ def suite(chk, nseeds, base=0, nobarrier_every=0, is_own=None):
                        "set_cpu_call_rcu_data (1-4 CPUs, out-of-range and occupied slots) with the documented unpublish-sync-free protocol; "
                        "futex fault plans (spurious, EINTR, ENOSYS→compat); teardown through free_all_cpu, rcu_barrier and urcu_call_rcu_exit; "
                        "plus directed sweeps (one forced preemption / one held thread at every event of the window): helper dec/empty-check/sleep vs enqueue, enqueue/wake vs helper start, and the documented per-CPU teardown (set_cpu NULL; synchronize_rcu; call_rcu_data_free / free_all_cpu) vs a call_rcu() held between its per-CPU lookup and its enqueue; "
-                       "random-walk (pswitch 3-60) and PCT strategies drawn from VERIF_SEED, for memb+membarrier, memb fallback and mb; every event "
+                       "random-walk (pswitch 3-60) and PCT strategies drawn from VERIF_SEED, for memb+membarrier, memb fallback, mb, qsbr, bp+membarrier and bp fallback; every event "
                        "replayed on Driver/CallRcu.lean; non-trivial = a callback invoked after a helper grace period, a helper woken from FUTEX_WAIT "
                        "(or an RT helper polling), and a hand-over on destroy / a per-CPU selection / a barrier wake-up; distinct = different (config, driver coverage summary)")
     return fails
@@ -194,7 +208,7 @@ def sweep(chk, modes, own, record=True, wide=False, first_only=True, fdiv=None):
                 if first_only:
                     return done_sweep(chk, runs, fails, record)
                 continue
-            rc, out, err = vlib.sh2([os.path.join(vlib.BUILD, "callrcu_" + flavor), "--seed", "1"] + [str(x) for x in base],
+            rc, out, err = vlib.sh2([os.path.join(vlib.BUILD, binname(flavor)), "--seed", "1"] + [str(x) for x in base],
                                     timeout=60, env={"VRT_MEMBARRIER": str(memb)})
             marks = sorted(set(int(x) for x in re.findall(r"^#@ (\d+)$", out, re.M)))
             early = [m for m in marks if m < 500000]
@@ -227,6 +241,14 @@ def directed(chk, own, fdiv, record=True, wide=False):
     leftover is handed over.  Returns failing results."""
     fails, runs = [], 0
     for flavor, memb, cname in CONFIGS:
+        # oneshot 7: synchronize_rcu() of another thread while the helper sleeps (qsbr: it must sleep offline)
+        r = one(flavor, memb, 1, ["--oneshot", 7, "--strategy", "sweep"])
+        runs += 1
+        if r["verdict"] != "ok":
+            r["config"] = cname
+            fails.append(r)
+            if r["verdict"] in ("oracle", "crash") and mine(r, own, fdiv):
+                return done_sweep(chk, runs, fails, record, "directed_runs")
         for mode in (5, 6):
             for n in (range(1, 90) if wide else range(4, 46)):
                 for ln in ((600, 2000) if wide else (600,)):
@@ -357,7 +379,8 @@ def replay(rp):
         import json
         print(json.dumps(rp, indent=1))
         return 1
-    args = [os.path.join(vlib.BUILD, os.path.basename(rp["cmd"][0]))] + [str(x) for x in rp["cmd"][1:]]
+    m = re.match(r"callrcu_([a-z]+)", os.path.basename(rp["cmd"][0]))
+    args = [os.path.join(vlib.BUILD, binname(m.group(1) if m else "memb"))] + [str(x) for x in rp["cmd"][1:]]
     rc, out, err = vlib.sh2(args, timeout=120, env=rp.get("env"))
     drc, dout = vlib.sh([DRV], inp=out.encode(), timeout=300)
     print(err.strip())
